@@ -336,3 +336,118 @@ Definition suite_C04 (inp obs : list tok) : verdict :=
       end
   | _ => malformed
   end.
+
+(* ================================================================== suite C04big: one LARGE bulk
+   transfer, judged at the level of lengths (Spec/C04.v, "C04big").  The model below is the
+   length-level reading of the same transcriptions (Impl/VolMem.v): which error, which count,
+   which heap range is written - the counts are the ones C04_array_copy_to_count /
+   C04_slice_copy_to_count prove of the byte-level model for every size; cases are restricted
+   (wf_big) to sizes far below isize::MAX, so the TooBig / Overflow branches are out of reach. *)
+Record bigout := { g_kind : N; g_count : N; g_lo : N; g_m : N }.
+Definition g_ok (cnt lo m : N) : bigout := {| g_kind := 0; g_count := cnt; g_lo := lo; g_m := m |}.
+Definition g_err (k lo m : N) : bigout := {| g_kind := k; g_count := 0; g_lo := lo; g_m := m |}.
+
+Definition big_model (c : bigcase) : bigout :=
+  let s := {| vs_addr := b_pre c; vs_size := b_n c |} in
+  let sz := b_sz c in
+  (* vs_write / vs_read: empty buffer, addr >= len, then min(len - addr, buf.len()) *)
+  let bytes_io (into all : bool) :=
+    if b_blen c =? 0 then g_ok 0 0 0
+    else if vs_size s <=? b_off c then g_err 1 0 0
+    else let total := N.min (vs_size s - b_off c) (b_blen c) in
+         if all then (if negb (total =? b_blen c) then g_err 3 (b_off c) (if into then total else 0)
+                      else g_ok 0 (b_off c) (if into then total else 0))
+         else g_ok total (b_off c) (if into then total else 0) in
+  match b_route c with
+  | BWrite => bytes_io true false | BRead => bytes_io false false
+  | BWriteSlice => bytes_io true true | BReadSlice => bytes_io false true
+  | BArrCopyTo =>
+      match vs_get_slice s (b_off c) (b_cnt c * sz) with
+      | Err _ => g_err 1 0 0
+      | Ok _ => g_ok (N.min (b_blen c) (b_cnt c)) 0 0
+      end
+  | BArrCopyFrom =>
+      match vs_get_slice s (b_off c) (b_cnt c * sz) with
+      | Err _ => g_err 1 0 0
+      | Ok a => g_ok 0 (vs_addr a - b_pre c) (N.min (b_blen c) (b_cnt c) * sz)
+      end
+  | BArrCopyToVs =>
+      match vs_get_slice s (b_off c) (b_cnt c * sz) with
+      | Err _ => g_err 1 0 0
+      | Ok _ => match vs_get_slice s (b_off2 c) (b_cnt2 c) with
+                | Err _ => g_err 1 0 0
+                | Ok d => g_ok 0 (vs_addr d - b_pre c) (N.min (b_cnt c * sz) (vs_size d))
+                end
+      end
+  | BSlCopyTo =>
+      match vs_get_slice s (b_off c) (b_cnt c) with
+      | Err _ => g_err 1 0 0
+      | Ok sl => g_ok (N.min (b_blen c) (vs_size sl / sz)) 0 0
+      end
+  | BSlCopyFrom =>
+      match vs_get_slice s (b_off c) (b_cnt c) with
+      | Err _ => g_err 1 0 0
+      | Ok sl => g_ok 0 (vs_addr sl - b_pre c) (N.min (b_blen c) (vs_size sl / sz) * sz)
+      end
+  | BSlCopyToVs =>
+      match vs_get_slice s (b_off c) (b_cnt c) with
+      | Err _ => g_err 1 0 0
+      | Ok sl => match vs_get_slice s (b_off2 c) (b_cnt2 c) with
+                 | Err _ => g_err 1 0 0
+                 | Ok d => g_ok 0 (vs_addr d - b_pre c) (N.min (vs_size sl) (vs_size d))
+                 end
+      end
+  end.
+
+Definition run_C04big (c : bigcase) : bigobs :=
+  let g := big_model c in
+  {| bo_kind := g_kind g; bo_count := g_count g; bo_bufdiff := BNONE; bo_heapdiff := BNONE;
+     bo_first := if g_m g =? 0 then BNONE else b_pre c + g_lo g;
+     bo_last := if g_m g =? 0 then BNONE else b_pre c + g_lo g + g_m g - 1 |}.
+
+Definition BIGLIM : N := 4294967296.
+Definition wf_big (c : bigcase) : bool :=
+  (b_pre c <? BIGLIM) && (b_n c <? BIGLIM) && (1 <=? b_sz c) && (b_sz c <=? 16) && (b_off c <? BIGLIM) &&
+  (b_cnt c <? BIGLIM) && (b_blen c <? BIGLIM) && (b_off2 c <? BIGLIM) && (b_cnt2 c <? BIGLIM) &&
+  (* accessors of zero bytes are not constrained by the property: not asked for *)
+  match b_route c with
+  | BWrite | BRead | BWriteSlice | BReadSlice => true
+  | BArrCopyTo | BArrCopyFrom | BSlCopyTo | BSlCopyFrom => 1 <=? b_cnt c
+  | BArrCopyToVs | BSlCopyToVs => (1 <=? b_cnt c) && (1 <=? b_cnt2 c)
+  end.
+
+Definition broute_of (r : N) : option broute :=
+  match r with
+  | 0 => Some BWrite | 1 => Some BRead | 2 => Some BWriteSlice | 3 => Some BReadSlice
+  | 12 => Some BArrCopyTo | 13 => Some BArrCopyFrom | 14 => Some BArrCopyToVs
+  | 15 => Some BSlCopyTo | 16 => Some BSlCopyFrom | 17 => Some BSlCopyToVs | _ => None
+  end.
+(* heap-to-heap moves: the harness's heap pattern has period 127, so every moved byte changes
+   (first / last changed position are then determined by lengths) only if the distance between
+   source and destination is not a multiple of 127 *)
+Definition big_move_visible (c : bigcase) : bool :=
+  match b_route c with
+  | BArrCopyToVs | BSlCopyToVs => negb ((b_off2 c + 127 * BIGLIM - b_off c) mod 127 =? 0)
+  | _ => true
+  end.
+
+Definition suite_C04big (inp obs : list tok) : verdict :=
+  match inp, obs with
+  | [TN kind; TN al; TN n; TN route; TN sz; TN off; TN cnt; TN blen; TN off2; TN cnt2; TN salt],
+    [TN k; TN count; TN bd; TN hd; TN fst; TN lst] =>
+      match broute_of route with
+      | Some r =>
+          let c := {| b_pre := 64; b_n := n; b_route := r; b_sz := sz; b_off := off; b_cnt := cnt;
+                      b_blen := blen; b_off2 := off2; b_cnt2 := cnt2 |} in
+          if wf_big c && big_move_visible c && (kind <=? 1) && (al <? 16) && (salt <? 127) then
+            let m := run_C04big c in
+            {| v_model := [TN (bo_kind m); TN (bo_count m); TN (bo_bufdiff m); TN (bo_heapdiff m);
+                           TN (bo_first m); TN (bo_last m)];
+               v_ok := ok_C04big c {| bo_kind := k; bo_count := count; bo_bufdiff := bd; bo_heapdiff := hd;
+                                      bo_first := fst; bo_last := lst |};
+               v_wellformed := true |}
+          else malformed
+      | None => malformed
+      end
+  | _, _ => malformed
+  end.
